@@ -84,6 +84,16 @@ def run_pair(rec, hub, D, la, lb, ops):
                 getattr(A, op)(D[lb[0]])
             except Exception:
                 pass
+    # right operand holding a dimension with another letter but the NAME of one of the left operand's dimensions
+    if la:
+        ntw = fd.Dimension(letter="n", name=D[la[0]].name, items=["n1", "n2"])
+        Bn = fd.DimensionSet(dim_list=[D[l] for l in lb if l != la[0]] + [ntw])
+        for op in ops:
+            A = fd.DimensionSet(dim_list=[D[l] for l in la])
+            try:
+                getattr(A, op)(Bn)
+            except Exception:
+                pass
     if len(la) == 1:
         for other in ([D[lb[0]]] if len(lb) == 1 else []) + [fd.DimensionSet(dim_list=[D[l] for l in lb])]:
             try:
